@@ -305,6 +305,12 @@ func main() {
 				}
 			}
 		}
-		fmt.Fprintf(w, "%s\t%s\t%s\t%s\n", c.ID, cv, gv, strconv.Quote(detail))
+		// near-miss witnesses ("diag:"): the SOURCE itself, read as plain Go, must be rejected by go/types
+		// (otherwise the witness is not a near-miss); reported as a 5th column ok|reject|unparsable
+		sv := "-"
+		if strings.HasPrefix(c.ID, "diag:") && len(c.Files) == 1 {
+			sv, _ = goTypes(exp, c.Files[0].Src)
+		}
+		fmt.Fprintf(w, "%s\t%s\t%s\t%s\t%s\n", c.ID, cv, gv, strconv.Quote(detail), sv)
 	}
 }
